@@ -455,10 +455,21 @@ class FtpBackend:
         cl = RawClient("127.0.0.1", self.port)
         out = []
         try:
-            code, _ = await cl.connect()
-            assert code == "220", code
-            code, _ = await cl.cmd("USER anonymous")
-            assert code == "230", code
+            # the greeting and the login run on the real clock like every step: an outcome other than 220 / 230 inside the
+            # limit is an observation of step 0 (the caller repeats such a session once with generous limits)
+            try:
+                code, _ = await cl.connect()
+                if code == "220":
+                    code, _ = await cl.cmd("USER anonymous")
+                    code = None if code == "230" else "CONN:login-" + code
+                else:
+                    code = "CONN:greeting-" + code
+            except asyncio.TimeoutError:
+                code = "TIMEOUT"
+            except (OSError, asyncio.IncompleteReadError) as e:
+                code = "CONN:" + type(e).__name__
+            if code is not None:
+                return [([code], self.snapshot())]
             for c in cmds:
                 try:
                     obs = await ftp_step(cl, c)
